@@ -20,6 +20,33 @@ def _all_const(args):
     return all(is_const(a) for a in args)
 
 
+def _perm_arg(p):
+    """X for p = argsort(X, ...) (a permutation of range(size(X)))."""
+    if isinstance(p, App) and p.fn == "argsort" and p.args:
+        return p.args[0]
+    return None
+
+
+def _is_perm(p):
+    if _perm_arg(p) is not None:
+        return True
+    # inverse permutation written as a scatter: inv = empty_like(p); inv[p] = arange(len(p))
+    if isinstance(p, App) and p.fn == "store" and len(p.args) == 3 and _is_perm(p.args[1]) and isinstance(p.args[2], App) and p.args[2].fn == "arange":
+        return True
+    return False
+
+
+def _inverse_perms(p, q):
+    """q is the inverse of the permutation p (or p of q)."""
+    for a, b in ((p, q), (q, p)):
+        x = _perm_arg(b)
+        if x is not None and x == a:          # b = argsort(a)
+            return True
+        if isinstance(b, App) and b.fn == "store" and len(b.args) == 3 and b.args[1] == a:   # b[a] = arange(n)
+            return True
+    return False
+
+
 def _bounds(v):
     """(lower, upper) terms of a value where a range fact is known, else (None, None)."""
     if isinstance(v, App) and v.fn in ("count_lt", "count_le", "count_ge", "count_gt") and v.args:
@@ -131,10 +158,28 @@ def mk_app(fn, args=(), kw=()):
                 return sub(Const(1), mk_app("cdf", [mk_num(-p)]))
         if p is not None and p.is_const() and p.const_value() == 0:
             return Const(Fraction(1, 2))
+    if fn == "reshape" and len(args) == 2 and not kw:
+        x, shp = args
+        # reshape(reshape(X, -1), shape(X)) = X ; reshape(reshape(X, -1), -1) = reshape(X, -1)
+        if isinstance(x, App) and x.fn == "reshape" and len(x.args) == 2 and x.args[1] == Const(-1):
+            if shp == App("shape", (x.args[0],)):
+                return x.args[0]
+            if shp == Const(-1):
+                return x
+        # an elementwise count reshaped: reshape(count(S, X), s) = count(S, reshape(X, s))
+        if isinstance(x, App) and x.fn in ("count_lt", "count_le") and len(x.args) == 2:
+            return App(x.fn, (x.args[0], mk_app("reshape", [x.args[1], shp])))
     if fn == "expand_dims" and len(args) == 1 and dict(kw or []).get("axis") == Const(0):
         return mk_app("getitem", [args[0], Const(None)])
     if fn == "getitem" and len(args) == 2:
         base, idx = args
+        if _is_perm(idx):
+            # permutation algebra: counts are elementwise in the needle, and a permutation followed by its inverse is the identity
+            if isinstance(base, App) and base.fn in ("count_lt", "count_le") and len(base.args) == 2:
+                return App(base.fn, (base.args[0], mk_app("getitem", [base.args[1], idx])))
+            if isinstance(base, App) and base.fn == "getitem" and len(base.args) == 2 and _is_perm(base.args[1]) and _inverse_perms(base.args[1], idx):
+                inner = base.args[0]
+                return inner if (isinstance(inner, App) and inner.fn == "reshape") else mk_app("reshape", [inner, Const(-1)])
         if isinstance(base, App) and base.fn == "diagonal" and len(base.args) == 1 and isinstance(idx, Tup) and len(idx.items) == 2 \
                 and idx.items[0] == Const(Ellipsis) and {k: v for k, v in (base.kw or [])}.get("axis1") in (Const(-1), Const(-2)) \
                 and {k: v for k, v in (base.kw or [])}.get("axis2") in (Const(-1), Const(-2)) and len(base.kw) == 2:
